@@ -25,6 +25,12 @@ MAP = {  # commit subject (after "fix: ") -> (properties, what failed, which che
  "keep the context configuration in a context variable": (["C07"], "concurrent validate calls shared the context configuration: an invalid polars DataFrame was accepted while another thread validated a LazyFrame; the process configuration stayed changed after both calls returned", "C07 CFG/* schedule/every_read_sees_solo_value, schedule/configuration_restored (schedules replayed on OS threads)"),
  "a shallow copy of a schema no longer shares its attribute dict": (["C05", "C07"], "copy.copy(schema) shared __dict__ with the original (BaseSchema.__setstate__)", "found while repairing C07 ATTR/*; covered by C07 ATTR/* after the repair"),
  "pandas validation no longer mutates shared schema components temporarily": (["C07"], "two threads validating with one pandas schema observed each other's temporary dtype/coerce/name overrides: valid data rejected, schema left changed", "C07 ATTR/pandas-coerce, ATTR/pandas-regex-name, ATTR/pandas-df-dtype"),
+ "polars Column.validate returns a DataFrame for a DataFrame": (["C04"], "polars Column.validate(pl.DataFrame) returned a LazyFrame (container kind not preserved)", "C04 PL/COL/*/lazyframe=False kind_preserved"),
+ "polars joint uniqueness failures carry collected failure cases and a check output": (["C06", "C11", "C03"], "polars: lazy validation with a joint-uniqueness failure leaked NotImplementedError (LazyFrame failure cases); with drop_invalid_rows the duplicated rows survived (no check output)", "C06 PL/K/ab/unique=a+b/lazy=True channel; C11 PL/DROP/ab/unique=a+b drop/no_invalid_row_survives (first seen through a solver-produced input on a path that left the model); C03 PL/P fixpoint_conforms"),
+ "polars subsample selects rows by position and supports sample": (["C20", "C06"], "polars: head/tail de-duplicated the selected rows by VALUE (unique()), so duplicated data rows were validated once and uniqueness violations accepted; sample= raised AttributeError (LazyFrame has no sample)", "C20 PL/SUB/* subsample/verdict (head=2 on two equal rows); C06/C20 PL/SUB/sample subsample/channel"),
+ "polars column default also fills null values of float columns": (["C08"], "polars: a float column with a default kept its null cells (only NaN was filled): pandas accepts and fills, polars rejected or returned the nulls", "C08 PL/EQ/ab/default=True backend_equiv/schema_verdict, parsed_table"),
+ "Category.coerce_value accepts missing values": (["C10"], "a failed Category coercion listed pre-existing nulls among the failure cases although a null converts (stays null)", "C10 CAT/try_coerce/N=2 coerce/failure_cases_exact"),
+ "strategies of unique nullable fields emit at most one null": (["C13"], "SeriesSchema/Column/Index strategies with nullable=True and unique=True drew several nulls ([nan, nan]), which the schema rejects as duplicates", "C13 SER/*/custom=None series_draws_satisfy_schema (replayed with hypothesis.find)"),
  "in_range strategy honours exclusive bounds for integer dtypes": (["C13"], "Check.in_range(0, 1, include_max=False) on an int column synthesised 1 (hypothesis ignores exclude_* for integers)", "C13 int/in_range draws_satisfy_checks (replayed with hypothesis.find)"),
 }
 
